@@ -52,6 +52,8 @@ class Parser:
                 try:
                     token = f(expr, context)
                     token.ast(tokens, stack, builder)
+                    if not stack:  # The implicit parenthesis has been closed.
+                        raise ParenthesesError()
                     if _verif.ON: _verif.emit(
                         'tok', cls=type(token).__name__, name=token.name,
                         n=token.end_match
